@@ -136,6 +136,9 @@ def main(rep, tier, only):
             seen.add(key)
             tr = transforms(u, fn)
             why = None
+            if len(tr) == 0:
+                rep.broken("C10 MIRROR %s at %s: the operator is not written as a word-wise std::transform; this form is not followed" % (key, F.primary_site(fn)))
+                continue
             if len(tr) != 1:
                 why = "not exactly one word-wise std::transform"
             else:
@@ -256,7 +259,9 @@ def main(rep, tier, only):
         rets = [r for r in F.walk(fn.get("body"), into_lambdas=False) if r.get("k") == "return"]
         t = T.show(T.snorm(u, fn, rets[0]["e"])) if rets else ""
         t = re.sub(r"fcppt::container::bitfield::object\{([^}]*)\}", r"\1", t)   # by-value copy of an operand
-        ok = re.sub(r"\s", "", t) in ("operator==(operator&(r_a0,r_a1),r_a0)", "(operator&(r_a0,r_a1)==r_a0)") or ("operator&(r_a0, r_a1)" in t and t.endswith("r_a0)") and "==" in t)
+        tn = re.sub(r"\s", "", t)
+        ok = tn in ("operator==(operator&(r_a0,r_a1),r_a0)", "(operator&(r_a0,r_a1)==r_a0)", "operator==(r_a0,operator&(r_a0,r_a1))", "(r_a0==operator&(r_a0,r_a1))") \
+            or ("operator&(r_a0, r_a1)" in t and t.endswith("r_a0)") and "==" in t)      # == is symmetric: either operand order
         (rep.ok if ok else rep.fail)("MIRROR", key, F.primary_site(fn), F.describe(fn)[:160], **({"how": "(l & r) == l"} if ok else {"why": "is_subset_eq is %s, specification (l & r) == l" % t}))
     for fn in db.functions:
         if F.fn_name(fn) == BF + "hash::operator()":
@@ -317,7 +322,7 @@ def main(rep, tier, only):
             if "initializer_list" in " ".join(pts):
                 init = next((i for i in fn.get("inits", []) if i.get("field") == "array_"), None)
                 t = T.show(T.norm(u, init["init"])) if init else ""
-                sets = [q for (_, _, q) in L.calls_in(u, fn.get("body")) if q.endswith("::set")]
+                sets = [q for (_, _, q) in L.calls_in(u, fn.get("body")) if q.endswith("::set") or q.endswith("bitfield::proxy::operator=")]   # set(e, v) is (*this)[e] = v
                 ok = "null_array" in t and sets
                 (rep.ok if ok else rep.fail)("PAD", key, F.primary_site(fn), F.describe(fn)[:160], **({"how": "null_array + set"} if ok else {"why": "initializer-list construction is not null_array + set: %s" % t}))
     # ---------------- proxy addressing
